@@ -390,3 +390,64 @@ func factZero(fs []fact, pv func(ssa.Value) bool) bool {
 func factPositive(fs []fact, pv func(ssa.Value) bool) bool {
 	return factCmp(fs, token.GTR, pv, isConstIntV(0)) || factCmp(fs, token.GEQ, pv, isConstIntV(1)) || factCmp(fs, token.NEQ, pv, isConstIntV(0))
 }
+
+// resultsAfterErrCheck: every use of a non-error result of call lies where the call's
+// error is known to be nil (the error test dominates the use on its nil edge).
+// Returns the number of uses inspected.
+func resultsAfterErrCheck(c *Ctx, key string, call *ssa.Call) int {
+	ev := errorValueOf(call)
+	sig := call.Call.Signature()
+	if ev == nil || sig.Results().Len() < 2 {
+		return 0
+	}
+	ei := errIndex(sig)
+	n := 0
+	for i := 0; i < sig.Results().Len(); i++ {
+		if i == ei {
+			continue
+		}
+		x := extractOf(call, i)
+		if x == nil {
+			continue
+		}
+		for _, r := range referrersOf(x) {
+			if _, dbg := r.(*ssa.DebugRef); dbg {
+				continue
+			}
+			n++
+			if ret, ok := r.(*ssa.Return); ok {
+				// `return decode(x)`: the pair is handed up unchanged, the caller looks at the error
+				both := false
+				for _, rv := range ret.Results {
+					if rv == ev {
+						both = true
+					}
+				}
+				if both {
+					c.ok(key+"/result-used-after-error-check", c.ipos(r), "result and error are returned together")
+					continue
+				}
+			}
+			var fs []fact
+			if phi, ok := r.(*ssa.Phi); ok {
+				good := true
+				for k, e := range phi.Edges {
+					if e != x {
+						continue
+					}
+					pred := phi.Block().Preds[k]
+					fs = edgeFactsTo(pred, phi.Block())
+					if isNil, _ := factNil(fs, ev); !isNil {
+						good = false
+					}
+				}
+				c.check(good, key+"/result-used-after-error-check", c.ipos(call), "the decoded result is used only where the decoder's error is nil", "a decoded result flows on before the decoder's error was looked at")
+				continue
+			}
+			fs = factsAt(r.Block())
+			isNil, _ := factNil(fs, ev)
+			c.check(isNil, key+"/result-used-after-error-check", c.ipos(r), "the decoded result is used only where the decoder's error is nil", "a decoded result is used before (or regardless of) the decoder's error: bytes of a failed decode are treated as data")
+		}
+	}
+	return n
+}
